@@ -4,7 +4,7 @@ import vpcheck as V
 LEVEL_TEXT = ("bounded symbolic model checking of int.cc lowered from clang IR: every operator is checked for ALL pairs of "
               "(64-bit payload, signedness) operands against an exact 128-bit oracle; no loops in the code under test")
 
-MULT = ['c08_div_kf_bias', 'c08_mul_any', 'c08_mul_smallA', 'c08_mul_smallB', 'c08_mul_pow2', 'c08_div_any', 'c08_div_smallB', 'c08_div_smallQ',
+MULT = ['c08_div_kf_bias', 'c08_divq_any', 'c08_mul_any', 'c08_mul_smallA', 'c08_mul_smallB', 'c08_mul_pow2', 'c08_div_any', 'c08_div_smallB', 'c08_div_smallQ',
         'c08_mod_any', 'c08_mod_smallB', 'c08_mod_smallQ']
 
 def modules(ctx):
